@@ -329,7 +329,7 @@ func ruleP03Insert(p *Prog, r *Report) {
 	}
 	texts := f.Params[2]
 	var mk *ssa.MakeSlice
-	eachInstr(f, func(in ssa.Instruction) {
+	eachVInstr(f, func(in ssa.Instruction) {
 		if m, ok := in.(*ssa.MakeSlice); ok && isSliceOf(m.Type(), "Line") {
 			mk = m
 		}
@@ -367,7 +367,7 @@ func ruleP03Insert(p *Prog, r *Report) {
 	nCopy, nNew := 0, 0
 	var copyIdx, oldIdx *Poly
 	var copyStore *ssa.Store
-	eachInstr(f, func(in ssa.Instruction) {
+	eachVInstr(f, func(in ssa.Instruction) {
 		st, ok := in.(*ssa.Store)
 		if !ok {
 			return
@@ -476,7 +476,7 @@ func ruleP03Insert(p *Prog, r *Report) {
 	r.check(okOrder, rule, "order", p.pos(f.Pos()), "old line i lands at i + (number of lines inserted before it): original order preserved", "the index arithmetic of the copy is not old = new - insertedSoFar (order of the original lines may change)")
 	// the new list replaces r.lines
 	okStore := false
-	eachInstr(f, func(in ssa.Instruction) {
+	eachVInstr(f, func(in ssa.Instruction) {
 		if st, ok := in.(*ssa.Store); ok {
 			if fa, ok := st.Addr.(*ssa.FieldAddr); ok && fieldName(fa) == "lines" && strip(st.Val) == ssa.Value(mk) {
 				okStore = true
